@@ -185,7 +185,7 @@ def run_check(prop, tier, seed, replay=None):
         try:
             rng = core.Rng(seed)
             if replay:
-                cases = [json.load(open(replay))["case"]]
+                cases = [core.load_case_file(replay)["case"]]
             else:
                 cases = list(prop.corpus(ctx)) + prop.generate(ctx, rng.fork("gen"), prop.budget(tier))
             t1 = time.time()
@@ -218,7 +218,13 @@ def run_check(prop, tier, seed, replay=None):
         kind, r = violations[0]
         path = core.write_replay(pid, seed, "violation", {"property": pid, "kind": kind, "case": r["case"],
                                                          "impl": r["out"], "verdict": r["verdict"],
-                                                         "n_violations": len(violations)})
+                                                         "n_violations": len(violations),
+                                                         "other_failures": [
+                                                             {"kind": k2, "failure": r2["case"].get("_failure") or
+                                                              r2["case"].get("_problems"), "verdict": r2["verdict"],
+                                                              "mutation": r2["case"].get("mutation"),
+                                                              "asset": r2["case"].get("asset")}
+                                                             for k2, r2 in violations[1:60]]})
         lines.append("VIOLATION property=%s replay=%s" % (pid, path))
         rc = 1
     elif broken or corr_broken_cases:
@@ -261,6 +267,9 @@ def run_check(prop, tier, seed, replay=None):
     ev["wall_s"] = round(time.time() - ctx.t0, 2)
     head, dirty = core.repo_head()
     ev["repo_head"] = head + ("+dirty" if dirty else "")
+    # content digest of the sources the harness was built from (core.cargo_build): the build output is tied to the
+    # content of /repo's working tree, not to modification times
+    cov["repo_source_digest"] = core.source_digest()
     core.write_evidence(pid, ev)
     for l in lines:
         print(l)
